@@ -63,7 +63,7 @@ def main():
     # 3. parser cases: verdict, tree, step count, step trace
     toks = pegrun.tokens("quick")
     seeds = [pegrun.syms(t) for t in pegrun.EXTRA_TEXTS[:30]]
-    pw = pegrun.peg_world(toks, 1, 1, seeds)
+    pw = pegrun.peg_world(toks, 1, 1, seeds, traced=True)
     r = pegrun.run_peg(chk, "self-peg", pw, shapes=False)
     report("parser, cases as enumerated (%d inputs, %d step traces)" % (r["inputs"], r.get("tracescompared", 0)), [], [1 for _ in r["language"] + r["steps"]])
     wd = vlib.sub("self-peg")
